@@ -214,6 +214,7 @@ impl Subscriber {
         let mut index = 0;
         for (key, value) in self.listener.iter() {
             if param.match_namespace_id(&key.namespace_id)
+                && param.namespace_privilege.check_permission(&key.namespace_id)
                 && param.match_group(&key.group_name)
                 && param.match_service(&key.service_name)
             {
